@@ -10,7 +10,7 @@ import re
 from .prog import Fn, short
 
 
-def helper_like(P, keep=None, max_blocks=90):
+def helper_like(P, keep=None, max_blocks=90, allow_recursive=False):
     """selector: local, named (not a closure), non-derived, non-recursive, small, and not one of the functions the rule wants to see
     as calls (`keep` regex on the short path)"""
     keep_rx = re.compile(keep) if isinstance(keep, str) else keep
@@ -21,6 +21,8 @@ def helper_like(P, keep=None, max_blocks=90):
             return False
         if keep_rx is not None and keep_rx.search(g.spath):
             return False
+        if allow_recursive:
+            return True
         # not (mutually) recursive
         seen, st = set(), list(cg.get(g.key, ()))
         while st:
